@@ -74,6 +74,13 @@ pub fn exec(c: &OCase, repair: bool) -> OResult {
             let ratio = get_diff_ratio(&ops, c.oe - c.os, c.ne - c.ns);
             (ops, ratio)
         }
+        "alias" => {
+            // the same object passed as old and as new (c.old == c.new), two windows of it
+            let buf = rec::items(&c.old);
+            let ops = capture_diff_deadline::<[Item], [Item]>(c.alg, &buf[..], c.os..c.oe, &buf[..], c.ns..c.ne, deadline);
+            let ratio = get_diff_ratio(&ops, c.oe - c.os, c.ne - c.ns);
+            (ops, ratio)
+        }
         "hetero" => {
             // old and new of different element types (equal values hash differently across them)
             let old: Vec<rec::OldT> = c.old.iter().map(|v| rec::OldT(*v)).collect();
@@ -248,6 +255,7 @@ pub fn from_json(v: &Value) -> OCase {
         "slices_weakhash" => "slices_weakhash",
         "slices_consthash" => "slices_consthash",
         "hetero" => "hetero",
+        "alias" => "alias",
         _ => "textdiff",
     };
     OCase {
@@ -315,6 +323,29 @@ pub fn drive_ops(a: &Args, out: &mut Out) {
     for _ in 0..(if thorough { 600 } else { 60 }) {
         pairs.push(gen::runny_ints(&mut rng));
     }
+    // exhaustive small scope, one representative per relabelling class, whole slices, no deadline
+    if a.get("exh", "1") == "1" {
+        for (x, y) in gen::canonical_pairs(3, if thorough { 6 } else { 5 }) {
+            if x.len().max(y.len()) <= 3 {
+                continue; // already in `pairs` with every variant
+            }
+            for alg in ALGS {
+                let c = OCase {
+                    alg,
+                    old: x.clone(),
+                    new: y.clone(),
+                    os: 0,
+                    oe: x.len(),
+                    ns: 0,
+                    ne: y.len(),
+                    entry: "slices",
+                    fuel: -2,
+                };
+                let case = out.next_case();
+                out.emit(&record(&c, case));
+            }
+        }
+    }
     // scale: more distinct tokens than 16 bits can number, with the longer side below / above
     // 65 535 tokens (TextDiff maps tokens to integers above 100 tokens)
     if a.get("big", "1") == "1" {
@@ -349,6 +380,37 @@ pub fn drive_ops(a: &Args, out: &mut Out) {
                     ns: 0,
                     ne: n2.len(),
                     entry: "slices",
+                    fuel: -2,
+                };
+                let case = out.next_case();
+                out.emit(&record(&c, case));
+            }
+        }
+        // many hunks: hundreds to thousands of raw ops buffered in one diff
+        // (a stage that would work in batches of a few hundred or thousand ops meets a different,
+        // randomly shaped hunk at its batch boundary in every case)
+        let mut counts: Vec<usize> = vec![150, 345];
+        for _ in 0..(if thorough { 200 } else { 24 }) {
+            counts.push(rng.range(600, 1500));
+        }
+        if thorough {
+            counts.extend([2800, 4500, 6000]);
+        }
+        for (bi, blocks) in counts.iter().enumerate() {
+            let (x, y) = gen::many_hunks(&mut rng, *blocks);
+            for alg in ALGS {
+                if (alg == Algorithm::Lcs && *blocks > 150) || (alg == Algorithm::Patience && bi % 4 != 0) {
+                    continue;
+                }
+                let c = OCase {
+                    alg,
+                    old: x.clone(),
+                    new: y.clone(),
+                    os: 0,
+                    oe: x.len(),
+                    ns: 0,
+                    ne: y.len(),
+                    entry: if bi % 3 != 2 { "slices" } else { "textdiff" },
                     fuel: -2,
                 };
                 let case = out.next_case();
@@ -444,6 +506,26 @@ pub fn drive_ops(a: &Args, out: &mut Out) {
                 let mut ht = if i % 2 == 0 { whole.clone() } else { sub.clone() };
                 ht.entry = "hetero";
                 emit_with_fuels(&ht, out, &mut rng, 0);
+            }
+            if i % 3 == 0 {
+                let mut buf = x.clone();
+                buf.extend(y.iter().cloned());
+                let mut al = whole.clone();
+                al.entry = "alias";
+                al.old = buf.clone();
+                al.new = buf.clone();
+                if i % 2 == 0 {
+                    al.oe = x.len();
+                    al.ns = x.len();
+                    al.ne = buf.len();
+                } else {
+                    let l = rng.below(buf.len() + 1);
+                    al.os = rng.below(buf.len() - l + 1);
+                    al.oe = al.os + l;
+                    al.ns = rng.below(buf.len() - l + 1);
+                    al.ne = al.ns + l;
+                }
+                emit_with_fuels(&al, out, &mut rng, 0);
             }
         }
     }
